@@ -153,6 +153,38 @@ pub open spec fn obj_drop_count<T>(kind: Kind, detached: bool, drops: int) -> in
   if !detached && spec_needs_drop::<T>() && (kind matches Kind::Slot(s) && !s.null) { drops + 1 } else { drops }
 }
 
+impl Kind {
+//@@fn file=object.rs scope="impl<T> Default for Kind<T> {" name=default rename=kind_default xlate=plain props=C13
+//@subst /fn default\(\)/ => fn default<T>()
+//@subst /core::mem::needs_drop::<T>\(\)/ => needs_drop_shim::<T>()
+//@subst /Kind::Dangling\(NonNull::dangling\(\)\)/ => Kind::Dangling(PtrTok {})
+//@subst /Kind::Slot\(MaybeUninit::uninit\(\)\)/ => Kind::Slot(SlotTok { null: false })
+//@subst /Kind::Inline\(NonNull::dangling\(\)\)/ => Kind::Inline(PtrTok {})
+//@contract
+  ensures
+    size_of::<T>() == 0 ==> r is Dangling, // [C13]
+    size_of::<T>() != 0 && spec_needs_drop::<T>() ==> r is Slot, // [C13]
+    size_of::<T>() != 0 && !spec_needs_drop::<T>() ==> r is Inline, // [C13]
+//@@end
+}
+impl RefMut {
+  /// `mem::take(&mut self.kind)`: returns the current value and leaves `Kind::default()` behind (std semantics written out)
+  pub fn take_kind<T>(&mut self) -> (r: Kind)
+    ensures r == old(self).kind, final(self).arena == old(self).arena && final(self).detached == old(self).detached && final(self).allocated == old(self).allocated,
+  { let k = self.kind; self.kind = Kind::kind_default::<T>(); k }
+//@@fn file=object.rs scope="impl<'a, T, A: Allocator> RefMut<'a, T, A> {" name=to_owned rename=to_owned_ref_mut xlate=plain st=mut props=C13
+//@subst /fn to_owned\(/ => fn to_owned<T>(
+//@subst /-> \(r: Owned<T, A>\)/ => -> (r: Owned)
+//@subst /self\.arena\.clone\(\)/ => self.arena.clone_arena(st)
+//@subst /(?:core::)?mem::take\(&mut self\.kind\)/ => self.take_kind::<T>()
+//@contract
+  ensures
+    final(st).log == old(st).log && final(st).drops == old(st).drops,
+    final(st).refs@ == old(st).refs@ + 1, // [C13]
+    final(self).detached && final(self).allocated == old(self).allocated && final(self).arena == old(self).arena, // [C13]
+    r.kind == old(self).kind && r.allocated == old(self).allocated && r.arena == old(self).arena && !r.detached, // [C13]
+//@@end
+}
 impl RefMut {
 //@@fn file=object.rs scope="impl<T, A: Allocator> Drop for RefMut<'_, T, A> {" name=drop rename=drop_ref_mut xlate=plain st=mut props=C13,C01
 //@subst /fn drop\(/ => fn drop<T>(
@@ -223,4 +255,17 @@ impl Owned {
 //@contract
   ensures *final(self) == (Owned { detached: true, ..*old(self) }), // [C13]
 //@@end
+}
+
+/// C13 (typed handles): "an owned handle releases exactly what the corresponding borrowed handle would", once in total, and
+/// the value is dropped in place exactly once
+fn c13_typed_to_owned_then_drop_both<T>(h: &mut RefMut, st: &mut St)
+  requires !old(h).detached,
+  ensures
+    final(st).log@ == obj_drop_log(old(h).kind, false, old(h).allocated, old(st).log@), // [C13]
+    final(st).drops@ == obj_drop_count::<T>(old(h).kind, false, old(st).drops@), // [C13]
+{
+  let mut o = h.to_owned_ref_mut::<T>(st);
+  h.drop_ref_mut::<T>(st);
+  o.drop_owned::<T>(st);
 }
